@@ -791,6 +791,158 @@ func TestVerifC12(t *testing.T) {
 		cases = append(cases, c12Case{id: "hist2-" + nm, tables: []c12Input{{fb, nil}, {failBases[0], nil}, {addBase(followUps[1]), nil}}, cont: true})
 	}
 
+	// deferred-parsing opcodes nested inside deferred-parsing opcodes (seeded change G: a nested deferred block must
+	// be parsed once; the oracle bounds the objects a table may allocate by its length).  Depths 2..14 are cheap
+	// even when the work doubles per level; the larger depths rely on the runner's time/memory watchdog.
+	{
+		one := []byte{0x01}
+		nestDepths := []int{2, 3, 4, 5, 6, 7, 8, 9, 10, 11, 12, 13, 14}
+		whileN := func(n int, inner []byte) []byte { // While(One){ While(One){ ... inner } }
+			b := inner
+			for i := 0; i < n; i++ {
+				b = c12Pkg([]byte{0xa2}, append(append([]byte{}, one...), b...))
+			}
+			return b
+		}
+		bufN := func(n int) []byte { // Buffer(Buffer(...Buffer(One){}...){}){}
+			b := one
+			for i := 0; i < n; i++ {
+				b = c12Pkg([]byte{0x11}, b)
+			}
+			return b
+		}
+		name := func(seg string, v []byte) []byte { return append(append([]byte{0x08}, seg...), v...) }
+		region := amlUnhex("5b80" + "52454730" + "000a000a10" + "5b810b" + "52454730" + "01" + "42414e4b" + "08") // OpRegion REG0; Field{BANK,8}
+		bank := func(val []byte) []byte { // BankField(REG0, BANK, val, 1){FLD0, 8}
+			body := append([]byte("REG0BANK"), val...)
+			body = append(body, 0x01, 'F', 'L', 'D', '0', 0x08)
+			return c12Pkg([]byte{0x5b, 0x87}, body)
+		}
+		mixed := func(n int) []byte {
+			b := []byte{0xa3}
+			for i := 0; i < n; i++ {
+				switch i % 3 {
+				case 0:
+					b = c12Pkg([]byte{0xa2}, append([]byte{0x01}, b...))
+				case 1: // While(Buffer(Buffer(One){}){} ) { Name(Bnnn, Buffer(One){}) ... }
+					body := append(bufN(2), name(fmt.Sprintf("B%03X", i), bufN(1))...)
+					b = c12Pkg([]byte{0xa2}, append(body, b...))
+				default:
+					b = c12Pkg([]byte{0xa2}, append(append([]byte{0x01}, bank(bufN(1))...), b...))
+				}
+			}
+			return append(append([]byte{}, region...), b...)
+		}
+		for _, n := range nestDepths {
+			raw(fmt.Sprintf("nest-while-%d", n), whileN(n, nil))
+			raw(fmt.Sprintf("nest-while-method-%d", n), c12Pkg([]byte{0x14}, append([]byte("MTH0\x00"), whileN(n, []byte{0xa3})...)))
+			raw(fmt.Sprintf("nest-buffer-%d", n), name("BUF0", bufN(n)))
+			raw(fmt.Sprintf("nest-while-buffer-%d", n), whileN(1, name("BUF0", bufN(n-1))))
+			raw(fmt.Sprintf("nest-whilepred-buffer-%d", n), c12Pkg([]byte{0xa2}, bufN(n-1)))
+			raw(fmt.Sprintf("nest-while-bank-%d", n), append(append([]byte{}, region...), whileN(n-1, bank(one))...))
+			raw(fmt.Sprintf("nest-bank-buffer-%d", n), append(append([]byte{}, region...), bank(bufN(n-1))...))
+			raw(fmt.Sprintf("nest-mixed-%d", n), mixed(n))
+		}
+		for _, n := range []int{16, 20, 28, 40, 64} {
+			raw(fmt.Sprintf("nest-while-%d", n), whileN(n, nil))
+			raw(fmt.Sprintf("nest-buffer-%d", n), name("BUF0", bufN(n)))
+		}
+		raw("nest-mixed-18", mixed(18))
+	}
+
+	// two-table histories on ONE Parser (seeded change H): table 1 is a truncated / corrupted declaration of a named
+	// object and is rejected; table 2 refers to that name from first-pass code, from deferred blocks and as a call
+	{
+		type decl struct {
+			kind string
+			op   []byte // opcode bytes
+			pkg  bool   // a PkgLength follows the opcode
+			body []byte // everything after the PkgLength
+			cuts []int  // argument boundaries inside body
+		}
+		foof := []byte("FOOF")
+		cat := func(bs ...[]byte) []byte {
+			var o []byte
+			for _, b := range bs {
+				o = append(o, b...)
+			}
+			return o
+		}
+		decls := []decl{
+			{"method", []byte{0x14}, true, cat(foof, []byte{0x02, 0xa4, 0x68}), []int{0, 2, 4, 5, 6}},
+			{"method-serial", []byte{0x14}, true, cat(foof, []byte{0x0b, 0xa3}), []int{4, 5}},
+			{"device", []byte{0x5b, 0x82}, true, cat(foof, []byte{0x08, 'X', 'X', 'X', 'X', 0x00}), []int{0, 2, 4, 5, 9}},
+			{"processor", []byte{0x5b, 0x83}, true, cat(foof, []byte{0x01, 0x10, 0x04, 0x00, 0x00, 0x06, 0xa3}), []int{0, 4, 5, 7, 9, 10}},
+			{"powerres", []byte{0x5b, 0x84}, true, cat(foof, []byte{0x01, 0x02, 0x00, 0xa3}), []int{0, 4, 5, 6, 7}},
+			{"thermalzone", []byte{0x5b, 0x85}, true, cat(foof, []byte{0x08, 'X', 'X', 'X', 'X', 0x00}), []int{0, 3, 4, 5}},
+			{"opregion", []byte{0x5b, 0x80}, false, cat(foof, []byte{0x00, 0x0a, 0x00, 0x0a, 0x10}), []int{0, 2, 4, 5, 6, 7, 8}},
+			{"field", []byte{0x5b, 0x81}, true, cat([]byte("REG0"), []byte{0x01}, foof, []byte{0x08}, []byte("FLD1"), []byte{0x08}), []int{0, 4, 5, 7, 9, 10, 14}},
+			{"indexfield", []byte{0x5b, 0x86}, true, cat([]byte("REG0BANK"), []byte{0x01}, foof, []byte{0x08}), []int{4, 8, 9, 13}},
+			{"bankfield", []byte{0x5b, 0x87}, true, cat([]byte("REG0BANK"), []byte{0x0a, 0x01, 0x01}, foof, []byte{0x08}), []int{8, 9, 10, 11, 15}},
+			{"name", []byte{0x08}, false, cat(foof, []byte{0x0c, 1, 2, 3, 4}), []int{0, 2, 4, 5, 7}},
+			{"alias", []byte{0x06}, false, cat([]byte("_SB_"), foof), []int{4, 6}},
+			{"mutex", []byte{0x5b, 0x01}, false, cat(foof, []byte{0x00}), []int{2, 4}},
+			{"event", []byte{0x5b, 0x02}, false, foof, []int{2}},
+			{"createfield", []byte{0x8a}, false, cat([]byte("BUF0"), []byte{0x00}, foof), []int{4, 5, 7}},
+		}
+		refs := [][]byte{
+			cat([]byte{0xa2, 0x05}, foof),                                      // While (FOOF) {}
+			cat([]byte{0xa2, 0x09, 0x01}, foof, []byte{0x01, 0x0a, 0x02}, []byte{0xa3}), // While (One) { FOOF (One, 2)  Noop }
+			foof,                                                                // FOOF at the top level (first pass)
+			cat(foof, []byte{0x01, 0x0a, 0x02}),                                // FOOF One 2 at the top level
+			cat([]byte{0xa2, 0x06, 0x01}, foof),                                // While (One) { FOOF }
+			cat([]byte{0xa2, 0x07}, foof, []byte{0x01, 0x01}),                  // While (FOOF One One) {}
+			cat([]byte{0x70}, foof, []byte{0x60}),                              // Store (FOOF, Local0)
+			cat([]byte{0xa0, 0x06}, foof, []byte{0xa3}),                        // If (FOOF) { Noop }
+			cat([]byte{0x14, 0x0c}, []byte("MTH9"), []byte{0x00, 0x70}, foof, []byte{0x60}), // Method (MTH9) { Store (FOOF, Local0) }
+			cat([]byte{0x14, 0x10}, []byte("MTH9"), []byte{0x00, 0xa2, 0x09, 0x01}, foof, []byte{0x01, 0x0a, 0x02, 0xa3}), // Method { While (One) { FOOF (One, 2) } }
+			cat([]byte{0x08}, []byte("BUF9"), []byte{0x11, 0x05}, foof),       // Name (BUF9, Buffer (FOOF) {})
+			cat(amlUnhex("5b80"+"52454739"+"000a000a10"), []byte{0x5b, 0x87, 0x13}, []byte("REG9BNK9"), foof, []byte{0x01}, []byte("FLD9"), []byte{0x08}), // BankField (REG9, BNK9, FOOF, 1) {FLD9, 8}
+			cat([]byte{0x10, 0x06, 0x5c}, foof),                                // Scope (\FOOF) {}
+			cat([]byte{0x5b, 0x82, 0x0a, 0x2e}, foof, []byte("DEV9")),          // Device (FOOF.DEV9) {}
+		}
+		refBases := make([]int, len(refs))
+		for i, rf := range refs {
+			refBases[i] = addBase(rf)
+		}
+		for _, dc := range decls {
+			var firsts [][]byte
+			var firstIds []string
+			add := func(tag string, b []byte) {
+				firsts = append(firsts, b)
+				firstIds = append(firstIds, tag)
+			}
+			for _, c := range dc.cuts {
+				if dc.pkg {
+					add(fmt.Sprintf("pkgend-%d", c), cat(dc.op, c12EncPkgLen(uint32(c+1), 1), dc.body[:c]))               // the package and the table end at the cut
+					add(fmt.Sprintf("pkgshort-%d", c), cat(dc.op, c12EncPkgLen(uint32(c+1), 1), dc.body))                  // PkgLength corrupted: package ends at the cut, bytes go on
+					add(fmt.Sprintf("eof-%d", c), cat(dc.op, c12EncPkgLen(uint32(len(dc.body)+1), 1), dc.body[:c]))       // table truncated inside the package
+					add(fmt.Sprintf("scope-%d", c), c12Pkg([]byte{0x10}, cat([]byte("\\"), []byte{0x00}, dc.op, c12EncPkgLen(uint32(len(dc.body)+1), 1), dc.body[:c]))) // enclosing Scope(\) ends at the cut
+				} else {
+					add(fmt.Sprintf("eof-%d", c), cat(dc.op, dc.body[:c]))
+					add(fmt.Sprintf("scope-%d", c), c12Pkg([]byte{0x10}, cat([]byte("\\"), []byte{0x00}, dc.op, dc.body[:c])))
+					add(fmt.Sprintf("method-%d", c), c12Pkg([]byte{0x14}, cat([]byte("MTH8"), []byte{0x00}, dc.op, dc.body[:c])))
+				}
+			}
+			for fi, fb := range firsts {
+				b1 := addBase(fb)
+				id := fmt.Sprintf("decl-%s-%s", dc.kind, firstIds[fi])
+				// all references one after the other on the same Parser
+				tabs := []c12Input{{b1, nil}}
+				for _, rb := range refBases {
+					tabs = append(tabs, c12Input{rb, nil})
+				}
+				cases = append(cases, c12Case{id: id + "-all", tables: tabs, cont: true})
+				for ri, rb := range refBases {
+					if !thorough && ri >= 4 && ri != 4+fi%(len(refBases)-4) {
+						continue
+					}
+					cases = append(cases, c12Case{id: fmt.Sprintf("%s-r%d", id, ri), tables: []c12Input{{b1, nil}, {rb, nil}}, cont: true})
+				}
+			}
+		}
+	}
+
 	// ---- seeded cases
 	progBases := []int{}
 	for i := 0; i < n; i++ {
@@ -883,6 +1035,23 @@ func TestVerifC12(t *testing.T) {
 			out.printf("P 1 %d %s | fatal\n", c.tables[0].base, amlEditsString(c.tables[0].edits))
 		}
 	}
+}
+
+// c12Pkg is op ++ PkgLength ++ body with the shortest PkgLength encoding that fits
+func c12Pkg(op []byte, body []byte) []byte {
+	w := 1
+	for ; w < 4; w++ {
+		max := uint32(0x3f)
+		if w > 1 {
+			max = uint32(1)<<(4+8*uint(w-1)) - 1
+		}
+		if uint32(len(body)+w) <= max {
+			break
+		}
+	}
+	out := append([]byte{}, op...)
+	out = append(out, c12EncPkgLen(uint32(len(body)+w), w)...)
+	return append(out, body...)
 }
 
 func c12Repeat(s string, n int) string {
